@@ -230,6 +230,7 @@ MUTANTS = [
                 edifact_format=self.edifact_format,
                 package_expression=package_expression,""")], ["C10"]),
     ("fixrevert_d18b_json_file_mixed_formats", [("src/ahbicht/expressions/package_expansion.py", """            if edifact_format is None or mapping.edifact_format == edifact_format""", """            if True""")], ["C10"]),
+    ("fixrevert_d19_shared_package_dictionary_of_loaded_results", [("src/ahbicht/models/content_evaluation_result.py", """        load_default=dict,  # a new dictionary for every loaded result (a single {} would be shared between all of them)""", """        load_default={},""")], ["C10"]),
     ("fixrevert_d7_931_midnight", [(TAG, "    if utc_offset == timedelta(0):", "    if utc_offset == timedelta(0) and date_time.time() == time(0, 0, 0):")], ["C20"]),
     ("fixrevert_d8_overflow", [(TAG, "    except OverflowError as overflow_error:", "    except ZeroDivisionError as overflow_error:")], ["C20"]),
     ("fixrevert_d4_soll_flag", [(VAL, """            tasks.append(
